@@ -35,6 +35,7 @@ type zzvC04Scn struct {
 	pre      []string // records present in the file before the processes start
 	fill     int      // 4000-byte filler records (drives the next big record to page 2)
 	preOpen  bool     // processes have the file open before the race starts
+	tailPad  bool     // pad so that a 16-byte name's record would end exactly at the page end
 	procs    [][]zzvOp4
 	thorough bool
 }
@@ -68,6 +69,7 @@ func zzvC04Scenarios() []zzvC04Scn {
 		{name: "P6-extend-race-bigname", preOpen: true, fill: 3, procs: [][]zzvOp4{{A(big, 1)}, {A(big, 2)}}},
 		{name: "P7-extend-race-two-bignames", preOpen: true, fill: 3, procs: [][]zzvOp4{{A(big, 1)}, {A(big2, 2)}}},
 		{name: "P8-extend-vs-small", preOpen: true, fill: 3, procs: [][]zzvOp4{{A(big, 1)}, {A("a", 2), A("b", 4)}}},
+		{name: "P12-pagetail-record-vs-extend", preOpen: true, fill: 3, tailPad: true, procs: [][]zzvOp4{{A("tail-name-16byte", 1)}, {A(big, 2)}}},
 		{name: "P9-three-procs-same-name", preOpen: true, procs: [][]zzvOp4{{A("a", 1)}, {A("a", 2)}, {A("a", 4)}}, thorough: true},
 		{name: "P10-three-procs-colliding", preOpen: true, procs: [][]zzvOp4{{A(k1, 1)}, {A(k2, 2)}, {A(k1, 4)}}, thorough: true},
 		{name: "P11-create-race-three", procs: [][]zzvOp4{{open, A("a", 1)}, {open, A("b", 2)}, {open, A("a", 4)}}, thorough: true},
@@ -81,7 +83,8 @@ type zzvC04Run struct {
 	adds     []uint64            // per process: sum of increments begun
 	returned []uint64            // per process: sum of increments whose Add returned
 	cellBy   []uint64            // per process: sum of completed cell additions
-	cell     map[string]uint64   // file\x00offset -> value according to completed additions
+	cell     map[string]uint64   // file\x00name -> value according to completed additions to that counter
+	curName  []string            // per process: name of the counter its current Add targets
 	limit    map[string]uint32   // per file: last limit seen
 	errs     []string
 	deferred int
@@ -123,9 +126,16 @@ func (r *zzvC04Run) stepOracle(kind string) {
 		}
 		r.limit[path] = cf.Limit
 		for _, rec := range cf.Records {
-			want := r.cell[fmt.Sprintf("%s\x00%d", path, rec.Off)]
+			want := r.cell[path+"\x00"+rec.Name]
 			if rec.Value != want {
-				r.fail("record %q holds %d but the completed additions to it sum to %d", zzvShort(rec.Name), rec.Value, want)
+				r.fail("counter %q holds %d but the completed additions to it sum to %d", zzvShort(rec.Name), rec.Value, want)
+			}
+		}
+		for k, want := range r.cell {
+			if strings.HasPrefix(k, path+"\x00") && want != 0 {
+				if _, ok := cf.Values[k[len(path)+1:]]; !ok {
+					r.fail("counter %q has no reachable record although additions summing to %d completed", zzvShort(k[len(path)+1:]), want)
+				}
 			}
 		}
 	}
@@ -163,6 +173,29 @@ func zzvC04Scenario(base string, scn *zzvC04Scn) *sched.Scenario {
 				for _, n := range scn.pre {
 					f0.lookup(n).count.Store(5)
 				}
+				if scn.tailPad {
+					// Advance the limit to 32 bytes before the end of page 1 with records of
+					// 48-byte names (64-byte records) and one final adjusting record.
+					m0 := f0.current.Load()
+					for i := 0; ; i++ {
+						limit := m0.load32(m0.hdrLen + limitOff)
+						rest := int(pageSize - 32 - limit)
+						if rest <= 0 {
+							if rest < 0 {
+								panic("set-up: overshot the page tail")
+							}
+							break
+						}
+						n := 48
+						if rest < 64+32 {
+							n = rest - 16
+						}
+						name := fmt.Sprintf("pad%03d/%s", i, strings.Repeat("p", 64))[:n]
+						if f0.lookup(name).count == nil {
+							panic("set-up: pad failed")
+						}
+					}
+				}
 				path := f0.current.Load().f.Name()
 				f0.current.Load().close()
 				data, _ := os.ReadFile(path)
@@ -171,11 +204,12 @@ func zzvC04Scenario(base string, scn *zzvC04Scn) *sched.Scenario {
 					panic("set-up file malformed: " + err.Error())
 				}
 				for _, rec := range cf.Records {
-					r.cell[fmt.Sprintf("%s\x00%d", path, rec.Off)] = rec.Value
+					r.cell[path+"\x00"+rec.Name] = rec.Value
 				}
 			}
 			np := len(scn.procs)
 			r.adds, r.returned, r.cellBy = make([]uint64, np), make([]uint64, np), make([]uint64, np)
+			r.curName = make([]string, np)
 			r.procCtrs = make([][]*Counter, np)
 			for pi, ops := range scn.procs {
 				pi, ops := pi, ops
@@ -201,6 +235,8 @@ func zzvC04Scenario(base string, scn *zzvC04Scn) *sched.Scenario {
 							f.rotate1()
 						case "add":
 							r.adds[pi] += op.n
+							r.curName[pi] = op.name
+							sched.MarkOp()
 							w.begun[op.name] += op.n
 							byName[op.name].Add(int64(op.n))
 							r.returned[pi] += op.n
@@ -216,7 +252,8 @@ func zzvC04Scenario(base string, scn *zzvC04Scn) *sched.Scenario {
 				if !found {
 					return // a state word on the Go heap
 				}
-				r.cell[fmt.Sprintf("%s\x00%d", file, off)] += new - old
+				_ = off
+				r.cell[file+"\x00"+r.curName[sched.Current().ID]] += new - old
 				r.cellBy[sched.Current().ID] += new - old
 			}
 			x.OnStep = func(x *sched.Exec) { r.stepOracle(x.LastKind) }
@@ -303,7 +340,7 @@ func zzvSigC04(f sched.Found, msg string) string {
 		}
 	case strings.HasPrefix(msg, "allocation limit decreased"):
 		base = "limit-decreased"
-	case strings.HasPrefix(msg, "record "):
+	case strings.HasPrefix(msg, "counter "):
 		base = "value-differs-from-completed-additions"
 	case strings.Contains(msg, "exceeds its increments begun"):
 		base = "over-count"
